@@ -7,6 +7,13 @@ import RsMatterVerif.Lemmas.CodecBtpBdx
 import RsMatterVerif.Lemmas.CodecQr
 import RsMatterVerif.Lemmas.CodecCheckIn
 import RsMatterVerif.Lemmas.CodecBleAdv
+import RsMatterVerif.Lemmas.CodecDerRead -- D16d
+import RsMatterVerif.Lemmas.CodecCmsCd -- D16d
+import RsMatterVerif.Lemmas.CodecCmsRound -- D16d
+import RsMatterVerif.Lemmas.CodecCertAsn1
+import RsMatterVerif.Lemmas.CodecBleRecovery
+import RsMatterVerif.Lemmas.CodecMdnsRound
+import RsMatterVerif.Lemmas.CodecMdnsService
 /-!
 # C17 — headers, onboarding payloads and discovery records decode what was encoded
 
@@ -17,8 +24,11 @@ arbitrary input (`NoPanic`: the model's checked cursor / index arithmetic never 
 or length class, out-of-range fields).
 
 The proofs live in `Lemmas/Codec*.lean`; this file states the property-level theorems.
-Formats that are *not* modelled (BLE advertisement, mDNS records, Matter-TLV ↔ X.509) are only
-exercised on the implementation by the harness — nothing is claimed for them here.
+Round 2 added: the BLE recovery advertisement and the mDNS wire format (sections D16b-1 / D16b-2), the
+DER writer + Matter-TLV → X.509 conversion with a DER reader as the inverse (section 11), the DER
+reading layer, `der_utils.rs` and the CMS envelope of the certification declaration (section D16d).
+Still exercised on the implementation only (nothing is claimed for them here): the X.509
+DAC/PAI/PAA field walk, the CSR parser, the TLV content / validation of the certification declaration.
 -/
 namespace C17
 open Codec
@@ -289,5 +299,558 @@ example : BleAdv.WF { vid := 0xFFF1, pid := 0x8000, disc := 0xF00, additional :=
 theorem ble_adv_parse_total (adv : List Nat) :
     NoPanic (BleAdv.parseAdv adv) ∧ NoPanic (BleAdv.parseServiceData adv) :=
   ⟨BleAdv.parseAdv_np adv, BleAdv.parseServiceData_np adv⟩
+
+/-! ## (D16d) DER reading layer under `attest/cd.rs`, `cert/x509/cert.rs`, `cert/x509/csr.rs` (crate `der` 0.7.10)
+and rs-matter's `cert/der_utils.rs`
+
+`Der.Safe r` = the model's answer `r` is a value or a proper error: neither `E.panic` (an index, slice,
+checked subtraction, `debug_assert!` or `copy_from_slice` of the Rust code would panic) nor `E.endless`
+(a loop ran out of fuel). `Der.Within input v` = `v` is a range `[off, off + |v|)` of `input`. -/
+
+open Codec.DerRd in
+/-- **the reading primitives are total and never panic**, on every well-formed reader (`Rdr.WF`: the
+invariant that `SliceReader::new` / `NestedReader::new` establish and every read preserves), for
+arbitrary bytes (no range assumption on the "bytes") and any requested length -/
+theorem der_reader_total (r : Rdr) (h : r.WF) (n : Nat) :
+    Safe (r.readSlice n) ∧ Safe r.readByte ∧ Safe (lengthDecode r) ∧ Safe (headerDecode r) ∧
+    Safe (anyDecode r) ∧ Safe r.finish ∧ Safe (nestedNew r n) :=
+  ⟨readSlice_safe h n, readByte_safe h, lengthDecode_safe h, headerDecode_safe h, anyDecode_safe h,
+   finish_safe h, nestedNew_safe h n⟩
+example : ∃ r, Codec.DerRd.Rdr.new [0x30, 0x00] = .ok r ∧ r.WF :=
+  ⟨.slice [0x30, 0x00] 0, rfl, by decide, by decide⟩
+
+open Codec.DerRd in
+/-- **every slice a read returns is the range `[offset, offset + n)` of the input, inside the input**,
+the reader advances by exactly `n` and stays well formed (same input, same nesting) -/
+theorem der_read_slice_within (r : Rdr) (h : r.WF) (n : Nat) (s : List Nat) (r' : Rdr)
+    (hr : r.readSlice n = .ok (s, r')) :
+    s = (r.input.drop r.offset).take n ∧ s.length = n ∧ r.offset + n ≤ r.input.length ∧
+    r'.offset = r.offset + n ∧ r'.input = r.input ∧ r'.WF ∧ r'.shape = r.shape := by
+  obtain ⟨h1, h2, h3, h4, h5, _, _, h8⟩ := readSlice_spec h hr
+  have := h5.offset_le
+  rw [h3, h4] at this
+  exact ⟨h1, h2, this, h3, h4, h5, h8⟩
+example : (Codec.DerRd.Rdr.slice [1, 2, 3] 1).readSlice 2 = .ok ([2, 3], .slice [1, 2, 3] 3) := rfl
+
+open Codec.DerRd in
+/-- **`AnyRef::decode`: the value lies inside the input, at least two octets behind the old offset, and
+the reader moves strictly forward to its end** -/
+theorem der_any_within_and_progress (r : Rdr) (h : r.WF) (tag : Nat) (v : List Nat) (r' : Rdr)
+    (hr : anyDecode r = .ok ((tag, v), r')) :
+    ∃ hl, 2 ≤ hl ∧ v = (r.input.drop (r.offset + hl)).take v.length ∧
+      r.offset + hl + v.length ≤ r.input.length ∧ r'.offset = r.offset + hl + v.length ∧ r'.WF := by
+  obtain ⟨hl, h1, h2, h3, h4⟩ := anyDecode_spec h hr
+  exact ⟨hl, h1, h2, h3, by rw [h4.off]; omega, h4.wf⟩
+example : Codec.DerRd.anyDecode (.slice [0x02, 0x01, 0x05] 0) = .ok ((2, [5]), .slice [0x02, 0x01, 0x05] 3) := rfl
+
+open Codec.DerRd in
+/-- **DER is canonical in this reader**: whatever `AnyRef::from_der` accepts is exactly
+`identifier ‖ minimal length octets ‖ value` of what it returns — over-long (non-minimal) lengths, the
+indefinite form, lengths above 256 MiB and trailing bytes are all refused -/
+theorem der_from_der_canonical (bytes : List Nat) (hbytes : ∀ b ∈ bytes, b < 256) (tag : Nat) (v : List Nat)
+    (h : fromDerAny bytes = .ok (tag, v)) : bytes = encTlv tag v :=
+  fromDerAny_canonical hbytes h
+example : Codec.DerRd.fromDerAny [0x04, 0x02, 0xAA, 0xBB] = .ok (4, [0xAA, 0xBB]) := rfl
+/-- samples of the refusal (tests, not the theorem): non-minimal long form, indefinite form, length-of-length 8 -/
+example : Codec.DerRd.fromDerAny [0x04, 0x81, 0x01, 0xAA] = .error .length ∧
+    Codec.DerRd.fromDerAny [0x30, 0x80, 0x00, 0x00] = .error .indefiniteLength ∧
+    Codec.DerRd.fromDerAny [0x04, 0x88, 0xff, 0xff, 0xff, 0xff, 0xff, 0xff, 0xff, 0xff] = .error .length := ⟨rfl, rfl, rfl⟩
+
+open Codec.DerRd in
+/-- **round trip of the element layer**: `from_der (encTlv tag v) = (tag, v)` for every tag octet that
+`Tag::try_from` knows and every value whose encoding fits `Length::MAX` -/
+theorem der_from_der_encode (tag : Nat) (v : List Nat) (ht : tagOfByte tag = .ok tag)
+    (hmax : (encTlv tag v).length ≤ MAX_LEN) : fromDerAny (encTlv tag v) = .ok (tag, v) :=
+  fromDerAny_enc ht hmax
+example : Codec.DerRd.tagOfByte 0x30 = .ok 0x30 ∧ (Codec.DerRd.encTlv 0x30 [5, 0]).length ≤ Codec.DerRd.MAX_LEN := ⟨rfl, by decide⟩
+
+open Codec.DerRd in
+/-- **`Length::decode` inverts the minimal length octets (all five forms) and accepts nothing else** -/
+theorem der_length_roundtrip_and_canonical :
+    (∀ (bytes : List Nat) (pos n : Nat) (rest : List Nat), bytes.drop pos = encLen n ++ rest → n ≤ MAX_LEN →
+      bytes.length ≤ MAX_LEN →
+      lengthDecode (.slice bytes pos) = .ok (n, .slice bytes (pos + (encLen n).length))) ∧
+    (∀ (r : Rdr), r.WF → (∀ b ∈ r.input, b < 256) → ∀ (l : Nat) (r' : Rdr), lengthDecode r = .ok (l, r') →
+      l ≤ MAX_LEN ∧ (r.input.drop r.offset).take (encLen l).length = encLen l ∧
+      r'.offset = r.offset + (encLen l).length) :=
+  ⟨fun _ _ _ _ hd hn hmax => lengthDecode_encLen hd hn hmax,
+   fun r h hb l r' hr => by
+     obtain ⟨h1, h2, h3⟩ := lengthDecode_spec h hb hr
+     exact ⟨h1, h3, h2.off⟩⟩
+
+open Codec.DerRd in
+/-- **truncation is refused**: every strict prefix of an element is an error (never a value, never a panic) -/
+theorem der_truncated_rejected (tag : Nat) (v : List Nat) (hbytes : ∀ b ∈ encTlv tag v, b < 256) (k : Nat)
+    (hk : k < (encTlv tag v).length) : ∃ e, fromDerAny ((encTlv tag v).take k) = .error e ∧ e ≠ .panic :=
+  fromDerAny_truncated hbytes k hk
+example : ∀ b ∈ Codec.DerRd.encTlv 0x04 [1, 2, 3], b < 256 := by decide
+
+open Codec.DerRd in
+/-- **iteration over a sequence terminates and consumes strictly**: the `while !is_finished() { AnyRef::decode }`
+loop (`MatterDnAttrs::parse`, `ParsedExtensionFields::parse`), started with fuel `|input| + 1`, never runs out
+of fuel and never panics — both on a plain reader (`seqItems`) and inside `reader.sequence(…)` + `finish`
+(`sequenceItems`, the shape of every `decode_value`); all item values are ranges of the input -/
+theorem der_sequence_iteration_total (bytes : List Nat) :
+    (match seqItems bytes with
+      | .error (e, _) => e ≠ .panic ∧ e ≠ .endless
+      | .ok l => ∀ it ∈ l, Within bytes it.2) ∧
+    (match sequenceItems bytes with
+      | .error e => e ≠ .panic ∧ e ≠ .endless
+      | .ok l => ∀ it ∈ l, Within bytes it.2) :=
+  ⟨seqItems_spec bytes, sequenceItems_spec bytes⟩
+example : Codec.DerRd.sequenceItems [0x30, 5, 2, 1, 5, 5, 0] = .ok [(2, [5]), (5, [])] := rfl
+
+open Codec.DerRd in
+/-- **`cert/der_utils.rs` is total**: `ecdsa_der_to_raw` and `copy_integer_to_fixed` never panic (the
+`src[0]`, `&src[1..]`, `target.len() - src.len()`, `target[..offset]`, `copy_from_slice` of the Rust code are
+checked operations in the model) and the zero-stripping loop terminates; `copy_integer_to_fixed` answers
+`Invalid` exactly when the stripped integer does not fit, else the integer right-aligned in `n` bytes -/
+theorem ecdsa_der_total (der integer : List Nat) (n : Nat) :
+    Safe (ecdsaDerToRaw der) ∧ Safe (copyIntegerToFixed n integer) ∧
+    copyIntegerToFixed n integer =
+      (if (stripZeros integer).length > n then .error .invalid else .ok (padLeft n (stripZeros integer))) ∧
+    (∀ out, copyIntegerToFixed n integer = .ok out → out.length = n) :=
+  ⟨ecdsaDerToRaw_safe der, copyIntegerToFixed_safe n integer, copyIntegerToFixed_eq n integer,
+   fun _ h => copyIntegerToFixed_length h⟩
+
+open Codec.DerRd in
+/-- **signature round trip**: the DER `SEQUENCE { INTEGER r, INTEGER s }` of two minimal big-endian
+magnitudes of at most 32 bytes decodes to `r‖s`, each half left-padded to 32 bytes -/
+theorem ecdsa_der_roundtrip (r s : List Nat) (hr : Canon 32 r) (hs : Canon 32 s) :
+    ecdsaDerToRaw (encSig r s) = .ok (padLeft 32 r ++ padLeft 32 s) :=
+  ecdsaDerToRaw_encSig hr hs
+example : Codec.DerRd.Canon 32 [0x43, 0xa6, 0x3f] ∧ Codec.DerRd.Canon 32 [] ∧ Codec.DerRd.Canon 32 (List.replicate 32 0xff) := by
+  refine ⟨⟨by decide, by decide, by decide⟩, ⟨by decide, by decide, by decide⟩, ⟨by decide, by decide, by decide⟩⟩
+
+open Codec.DerRd in
+/-- **`CmsSignedData::parse` (`attest/cd.rs`) is total and returns sub-slices of the message**: on arbitrary
+bytes the model never panics and never runs out of fuel; when it succeeds, `signer_key_id` (exactly 20 bytes)
+and `cd_content` are the ranges `[kidOff, kidOff + 20)` and `[cdOff, cdOff + |cd|)` of the message, and the
+raw signature has 64 bytes. (`ObjectIdentifier` / `u8` decoding of the `der` crate enter by their acceptance
+condition only, see `Model/Codec/CmsCd.lean`.) -/
+theorem cms_parse_total_and_within (msg : List Nat) :
+    Safe (cmsParse msg) ∧
+    ∀ c, cmsParse msg = .ok c →
+      c.kidOff + c.kid.length ≤ msg.length ∧ c.kid = (msg.drop c.kidOff).take c.kid.length ∧
+      c.cdOff + c.cd.length ≤ msg.length ∧ c.cd = (msg.drop c.cdOff).take c.cd.length ∧
+      c.kid.length = 20 ∧ c.sig.length = 64 := by
+  obtain ⟨hs, hq⟩ := cmsParse_post msg
+  refine ⟨hs, fun c hc => ?_⟩
+  obtain ⟨⟨a1, a2⟩, ⟨b1, b2⟩, h3, h4⟩ := hq c hc
+  exact ⟨a1, a2, b1, b2, h3, h4⟩
+set_option maxRecDepth 100000 in
+/-- non-vacuity (a test): the model encoder's output is parsed, with the fields that were encoded -/
+example : (match Codec.DerRd.cmsParse (Codec.DerRd.encCms [0x15, 0x18] (List.replicate 20 7) [5] [6]) with
+    | .ok c => c.kid == List.replicate 20 7 && c.kidOff == 63 && c.cd == [0x15, 0x18] && c.cdOff == 52 &&
+        c.sig == List.replicate 31 0 ++ [5] ++ List.replicate 31 0 ++ [6]
+    | .error _ => false) = true := by decide
+
+open Codec.DerRd in
+/-- **CMS round trip**: `CmsSignedData::parse` of the Matter CD envelope (RFC 5652 profile of `cd.rs`) built by
+the model encoder from a CD content, a 20-byte signer key identifier and a signature `(r, s)` (minimal magnitudes of
+at most 32 bytes) returns exactly the key identifier, the content and `pad32 r ‖ pad32 s`. The content bytes are
+arbitrary (any TLV, any length up to `Length::MAX`). -/
+theorem cms_parse_encode (content kid r s : List Nat) (hk : kid.length = 20) (hr : Canon 32 r) (hs : Canon 32 s)
+    (hmax : (encCms content kid r s).length ≤ MAX_LEN) :
+    ∃ c, cmsParse (encCms content kid r s) = .ok c ∧ c.kid = kid ∧ c.cd = content ∧
+      c.sig = padLeft 32 r ++ padLeft 32 s :=
+  cmsParse_encCms hk hr hs hmax
+set_option maxRecDepth 100000 in
+example : (List.replicate 20 7).length = 20 ∧ Codec.DerRd.Canon 32 [5] ∧
+    (Codec.DerRd.encCms [0x15, 0x18] (List.replicate 20 7) [5] [6]).length ≤ Codec.DerRd.MAX_LEN :=
+  ⟨by decide, ⟨by decide, by decide, by decide⟩, by decide⟩
+
+/-! ## (11) Matter-TLV certificate → X.509 DER: the DER writer `ASN1Writer` (`cert/asn1_writer.rs`), a DER
+reader, and `CertRef::as_asn1` (`cert.rs`) — D16c -/
+section DerCert
+open Codec.Der Codec.CertAsn1
+
+/-- length octets: the reader inverts the encoder for every length below 2^32 -/
+theorem der_len_roundtrip (n : Nat) (rest : List Nat) (h : n < 4294967296) :
+    decLen (encLen n ++ rest) = some (n, rest) :=
+  decLen_encLen n rest h
+
+/-- minimality: the only length octets the reader accepts for `n` are `encLen n` (no indefinite form, no
+leading zero, no long form for a short length) -/
+theorem der_len_minimal (l rest : List Nat) (n : Nat) (hb : ∀ b ∈ l, b < 256) (h : decLen l = some (n, rest)) :
+    n < 4294967296 ∧ l = encLen n ++ rest :=
+  decLen_canonical l rest n hb h
+example : decLen [0x82, 0x01, 0x00, 7] = some (256, [7]) := by decide
+
+/-- the length octets `encode_len` writes are DER's, for every length the writer supports -/
+theorem der_writer_len (n : Nat) (h : n < 65536) : lenBytes n = encLen n := lenBytes_eq_encLen n h
+
+/-- `parse (encode tree) = tree` for every tree with low tag numbers and lengths below 2^32 -/
+theorem der_parse_encode (d : Der) (hw : d.WF) (rest : List Nat) :
+    parseOne (fuelFor (d.enc ++ rest)) (d.enc ++ rest) = some (d, rest) ∧ parseDer d.enc = some d :=
+  ⟨parseOne_enc d hw _ (by have := fuel_le d; simp only [fuelFor, List.length_append]; omega) rest, parseDer_enc d hw⟩
+example : (Der.cons 0x30 [.prim 0x02 [5], .cons 0xA0 []]).WF :=
+  ⟨by decide, by decide, by decide, ⟨by decide, by decide, by decide⟩, ⟨by decide, by decide, by decide, trivial⟩, trivial⟩
+
+/-- what the reader accepts *is* the canonical (definite, minimal-length) encoding of the tree it returns -/
+theorem der_parse_canonical (l : List Nat) (d : Der) (hb : ∀ b ∈ l, b < 256) (h : parseDer l = some d) :
+    d.WF ∧ l = d.enc := by
+  unfold parseDer at h
+  split at h
+  · rename_i d' heq
+    simp only [Option.some.injEq] at h; subst h
+    have := (parse_sound (fuelFor l)).1 l d' [] hb heq
+    simpa using this
+  · simp at h
+
+/-- (ii) the writer never panics: any operation sequence (balanced or not, any nesting, any buffer) answers
+`Ok` or a clean error (`BufferTooSmall`, `Invalid`), provided every `utctime` argument is a date up to
+9999-12-31T23:59:59Z and the caller stops at the first error (`?`) -/
+theorem der_writer_never_panics (buf : List Nat) (ops : List Op) (h : ∀ op ∈ ops, op.argsOk) :
+    NoPanic ((W.new buf).run ops) :=
+  (Inv.new buf).run_noPanic ops h
+example : ∀ op ∈ [Op.startSeq, .utctime 252455615999, .endSeq, .endSeq], op.argsOk := by
+  intro op h; simp at h; rcases h with rfl | rfl | rfl | rfl <;> simp [Op.argsOk] <;> decide
+
+/-- … and the only errors are `BufferTooSmall` (no room, a length ≥ 65536, the depth limit) and `Invalid` (an end
+without a start) -/
+theorem der_writer_errors (buf : List Nat) (ops : List Op) (h : ∀ op ∈ ops, op.argsOk) (e : Err)
+    (he : (W.new buf).run ops = .error e) : e = .bufferTooSmall ∨ e = .invalid :=
+  (Inv.new buf).run_errors ops h e he
+
+/-- (i) writer output = encode(tree): a balanced operation sequence (every start has its end) whose nesting stays
+below the depth limit, whose lengths the writer can encode and which fits the buffer (`needL`: an open compound
+holds 1 + 3 header bytes until it is closed) succeeds, and `as_slice()` is the encoding of the operations' tree -/
+theorem der_writer_output_is_encoding (buf : List Nat) (ops : List Op) (ns : List Node) (hb : forest ops = some ns)
+    (hh : Node.heightL ns < MAX_DEPTH) (hl : Node.lenOkL ns) (hfit : Node.needL ns ≤ buf.length) :
+    ∃ w, (W.new buf).run ops = .ok w ∧ w.asSlice = .ok (Node.encL ns) :=
+  run_balanced buf ops ns hb hh hl hfit
+example : forest [.startSeq, .integer [5], .startOstr, .bool true, .endOstr, .endSeq]
+    = some [.cons 0x30 [.prim 0x02 [5], .cons 0x04 [.prim 0x01 [0xFF]]]] := rfl
+example : Node.heightL [.cons 0x30 [.prim 0x02 [5], .cons 0x04 [.prim 0x01 [0xFF]]]] < MAX_DEPTH := by decide
+example : Node.needL [.cons 0x30 [.prim 0x02 [5], .cons 0x04 [.prim 0x01 [0xFF]]]] ≤ 16 := by decide
+
+/-- "fits the buffer" is exactly `needL ≤ buf.len()`: with less room the same sequence answers `BufferTooSmall` -/
+theorem der_writer_need_exact (buf : List Nat) (ops : List Op) (ns : List Node) (hb : forest ops = some ns)
+    (hh : Node.heightL ns < MAX_DEPTH) (hl : Node.lenOkL ns) (hfit : buf.length < Node.needL ns) :
+    (W.new buf).run ops = .error .bufferTooSmall :=
+  run_balanced_noSpace buf ops ns hb hh hl hfit
+
+/-- (i) … and the output parses as well-formed DER whose tree is the tree of the operations (`toDerL`: a
+compound OCTET STRING is a primitive whose content is the encoding of its children; `raw` bytes stand for the DER
+values they contain — the hypothesis `toDerL ns = some ds` says that they are DER) -/
+theorem der_writer_output_parses (buf : List Nat) (ops : List Op) (ns : List Node) (ds : List Der)
+    (hb : forest ops = some ns) (hh : Node.heightL ns < MAX_DEPTH) (hl : Node.lenOkL ns)
+    (hfit : Node.needL ns ≤ buf.length) (ht : Node.tagsOkL ns) (hd : Node.toDerL ns = some ds) :
+    ∃ w out, (W.new buf).run ops = .ok w ∧ w.asSlice = .ok out ∧ parseAll out = some ds :=
+  parse_run_balanced buf ops ns ds hb hh hl hfit ht hd
+
+/-- BIT STRING of named bits (`bitstr(truncate = true, s)`, the key-usage extension): unused-bits byte followed by
+`s` without its trailing zero bytes; what is kept does not end in a zero byte, the count is the number of trailing
+zero bits of the last kept byte (0 for the empty string); what is cut is zeros -/
+theorem der_bitstr_named_bits (s : List Nat) :
+    ∃ k u, k ≤ s.length ∧ bitstrContent true s = u :: s.take k ∧ (∀ i, k ≤ i → i < s.length → s[i]? = some 0) ∧
+      (k = 0 → u = 0) ∧ (0 < k → ∃ x, s[k - 1]? = some x ∧ x ≠ 0 ∧ u = tz 8 x) :=
+  bitstrContent_true_spec s
+example : bitstrContent true [0x06, 0x00] = [1, 0x06] := by decide
+
+/-- a buffer below 64 KiB that is large enough makes every length encodable -/
+theorem der_lengths_fit (ns : List Node) (h : Node.needL ns < 65536) : Node.lenOkL ns := lenOkL_of_needL ns h
+
+/-- UTCTime / GeneralizedTime: every instant the writer can write (year-2050 rule included) reads back as
+the same instant -/
+theorem cert_time_roundtrip (e : Nat) (h : MATTER_EPOCH_SECS + e ≤ MAX_UNIX) :
+    ∃ tag s, timeStr e = some (tag, s) ∧ parseTime (.prim tag s) = some e :=
+  parseTime_timeStr e h
+
+/-- `as_asn1` never panics: for *any* accessor results (readable or failing fields, any list contents) within
+the types' bounds and any buffer it returns the DER or an error -/
+theorem cert_as_asn1_never_panics (c : Cert) (hb : c.Bounds) (buf : List Nat) :
+    asAsn1 c buf ≠ .error (.w .panic) :=
+  asAsn1_noPanic c hb buf
+
+def certSample : Fields :=
+  { serial := [0x10, 0x43], signAlgo := 1
+    issuer := [{ tag := 20, val := .uint 1 }, { tag := 1, val := .printable [0x43, 0x41] }]
+    notBefore := 0x27812280, notAfter := 0
+    subject := [{ tag := 17, val := .uint 0xBC5C02 }, { tag := 21, val := .uint 1 }, { tag := 3, val := .utf8 [0x61] }]
+    pubkeyAlgo := 1, ecCurveId := 1, pubkey := [4, 1, 2, 3]
+    exts := [.basic true (some 0), .keyUsage 0x60, .extKeyUsage [2, 1], .subjKeyId [1, 2], .authKeyId [3]] }
+
+/-- (3) **certificate round trip, every certificate within the declared bounds** (`Fields.Legal`): `as_asn1`
+into any buffer with enough room (below 64 KiB) writes the encoding of `certNode`, which parses as DER, and the
+fields read back from it — serial, algorithms, every DN attribute with its OID / string type / value, both validity
+instants (0 = no well-defined expiry), the public key, every extension with criticality and value — are exactly
+the certificate's (`Fields.view`) -/
+theorem cert_der_roundtrip (f : Fields) (h : f.Legal) :
+    ∃ n, certNode f = some n ∧ ∀ buf : List Nat, n.need ≤ buf.length → buf.length < 65536 →
+      ∃ der d v, asAsn1 f.lazy buf = .ok der ∧ der = n.enc ∧ parseDer der = some d ∧
+        certFieldsOfDer d = some v ∧ f.view = some v :=
+  cert_roundtrip_legal f h
+example : (certNode certSample).map (fun n => decide (n.need ≤ Consts.c17MaxCertAsn1Len ∧ n.need < 65536)) = some true := by
+  decide +kernel
+example : certSample.Legal := by
+  refine ⟨rfl, rfl, rfl, by decide, by decide, ?_, ?_, ?_⟩
+  · intro a ha; simp [certSample] at ha; rcases ha with rfl | rfl <;> simp [Attr.WF]
+  · intro a ha; simp [certSample] at ha; rcases ha with rfl | rfl | rfl <;> simp [Attr.WF]
+  · intro e he; simp [certSample] at he
+    rcases he with rfl | rfl | rfl | rfl | rfl <;> simp [XExt.WF]
+
+end DerCert
+
+end C17
+
+/-! ## (D16b-1) BLE advertisement payload of a node in network-recovery mode (`RecoveryAdvData`) -/
+namespace C17
+open Codec
+
+/-- `parse_service_data (service_payload_iter r) = r` and `parse_adv (iter r) = r` for every eight-byte id -/
+theorem ble_recovery_parse_encode (r : BleRecovery.Rec) (hwf : BleRecovery.WF r) :
+    BleRecovery.parseServiceData (BleRecovery.servicePayload r) = .ok (some r) ∧
+    BleRecovery.parseAdv (BleRecovery.encode r) = .ok (some r) :=
+  BleRecovery.parse_encode r hwf
+example : BleRecovery.WF { id := [0x11, 0x22, 0x33, 0x44, 0x55, 0x66, 0x77, 0x88], additional := false } := rfl
+
+/-- both parsers are total on arbitrary bytes: the guarded indexes / `try_into().unwrap()` never fire -/
+theorem ble_recovery_parse_total (adv : List Nat) :
+    NoPanic (BleRecovery.parseAdv adv) ∧ NoPanic (BleRecovery.parseServiceData adv) :=
+  ⟨BleRecovery.parseAdv_np adv, BleRecovery.parseServiceData_np adv⟩
+
+/-- refusal: a payload shorter than 11 bytes, a payload whose opcode is not 1, an advertisement
+without a Matter service-data structure -/
+theorem ble_recovery_rejected :
+    (∀ p : List Nat, p.length < BleRecovery.PAYLOAD_LEN → BleRecovery.parseServiceData p = .ok none) ∧
+    (∀ (op : Nat) (rest : List Nat), op ≠ BleRecovery.OPCODE_NETWORK_RECOVERY →
+      BleRecovery.parseServiceData (op :: rest) = .ok none) ∧
+    (∀ adv : List Nat, BleAdv.matterServiceData (adv.length + 1) adv = none → BleRecovery.parseAdv adv = .ok none) :=
+  ⟨BleRecovery.parse_rejects_short, BleRecovery.parse_rejects_opcode, BleRecovery.parseAdv_rejects_no_matter⟩
+example : ([1, 0, 1, 2, 3] : List Nat).length < BleRecovery.PAYLOAD_LEN ∧ (0 : Nat) ≠ BleRecovery.OPCODE_NETWORK_RECOVERY ∧
+    BleAdv.matterServiceData 4 [0x02, 0x01, 0x05] = none := by decide
+
+/-- soundness of an accepted payload: wire layout `01 vv id[8] ad …`, id verbatim, flag = bit 0 -/
+theorem ble_recovery_accepts_only_layout (p : List Nat) (r : BleRecovery.Rec)
+    (h : BleRecovery.parseServiceData p = .ok (some r)) :
+    BleRecovery.WF r ∧ ∃ v ad rest, p = BleRecovery.OPCODE_NETWORK_RECOVERY :: v :: (r.id ++ ad :: rest) ∧
+      r.additional = decide (ad % 2 = 1) :=
+  BleRecovery.parse_some p r h
+example : BleRecovery.parseServiceData [1, 0, 1, 2, 3, 4, 5, 6, 7, 8, 1] =
+    .ok (some { id := [1, 2, 3, 4, 5, 6, 7, 8], additional := true }) := by
+  rw [BleRecovery.parseServiceData_long]; rfl
+
+/-- the commissionable and the recovery payload never parse as each other (opcode byte / length) -/
+theorem ble_adv_kinds_disjoint (r : BleRecovery.Rec) (a : BleAdv.Adv) :
+    BleAdv.parseServiceData (BleRecovery.servicePayload r) = .ok none ∧
+    BleRecovery.parseServiceData (BleAdv.servicePayload a) = .ok none :=
+  BleRecovery.kinds_disjoint r a
+
+end C17
+
+/-! ## (D16b-2) mDNS: names, resource records, TXT strings, the broadcast message and `parse_into_answer`
+
+Model: `Model/Codec/Mdns.lean` (what is rs-matter code and what is `domain`-crate behaviour is said there).
+`P` is the parser cursor (`pos`, `len`); `P.Inv d p` is `pos ≤ len ≤ |d|`. -/
+namespace C17
+open Codec Codec.Mdns
+
+/-! ### totality -/
+
+/-- **termination of compression-pointer following**: for every octet string and every cursor the name
+parser never exhausts the step budget `256 * (len + 2)` the model hands out (a pointer must point strictly
+before itself, and between two pointers the name grows towards its 255-octet limit) -/
+theorem mdns_name_parse_terminates (d : List Nat) (p : P) : parseName d p ≠ .error .fuel :=
+  parseName_ne_fuel d p
+
+/-- the name parser on a sound cursor answers a name or a proper error - never a panic - and leaves a sound cursor -/
+theorem mdns_name_parse_no_panic (d : List Nat) (p : P) (hi : p.Inv d) :
+    Fine (parseName d p) ∧ ∀ n p', parseName d p = .ok (n, p') → p'.Inv d ∧ p'.len = p.len := by
+  have h := parseName_good d p hi
+  refine ⟨h.fine, fun n p' he => ?_⟩
+  rw [he] at h; exact h
+example : P.Inv [3, 119, 119, 119, 0] ⟨0, 5⟩ := by refine ⟨by decide, by decide⟩
+
+/-- **`parse_into_answer` is total on arbitrary octets**: shorter than a header → `MdnsError`, otherwise
+`None` or an answer; no panic, no exhausted budget (name parser, `MdnsTxt`, `MdnsAddrs`) -/
+theorem mdns_parse_total (d : List Nat) (scope : Option Nat) :
+    (d.length < 12 ∧ parseIntoAnswer d scope = .error .shortMessage) ∨
+    (12 ≤ d.length ∧ ∃ v, parseIntoAnswer d scope = .ok v) :=
+  parseIntoAnswer_total d scope
+
+/-- draining `MdnsTxt` over arbitrary record data always yields a list -/
+theorem mdns_txt_total (data : List Nat) : ∃ kvs, txtPairs data = .ok kvs := txtPairs_fine data
+
+/-- `MdnsAddrs` (a re-walk per item with a `seen` / `yielded` cursor) drained = the addresses of the A / AAAA
+records owned by the SRV target, in packet order -/
+theorem mdns_addrs_iterator (d : List Nat) (L : Nat) (rs : List Rec) (t : Name) (hok : ∀ r ∈ rs, RecOk d L r) :
+    addrsAll d rs (some t) (rs.length + 1) 0 = .ok (addrsOf t (addrView d) rs) :=
+  addrsAll_view d L rs t hok
+example : ∀ r ∈ ([] : List Rec), RecOk [] 0 r := by intro r hr; cases hr
+
+/-! ### names -/
+
+/-- **name round trip**, compression-free encoding: labels of 1..63 octets, at most 255 octets on the wire -/
+theorem mdns_name_round_trip (d : List Nat) (p : P) (labels : List (List Nat)) (B : List Nat) (hwf : NameWF labels)
+    (hdrop : d.drop p.pos = encName labels ++ B) (hfit : p.pos + (encName labels).length ≤ p.len) (hd : p.len ≤ d.length) :
+    parseName d p = .ok ({ labels := labels, nameLen := (encName labels).length, compressed := false },
+                         ⟨p.pos + (encName labels).length, p.len⟩) :=
+  parseName_flat d p labels B hwf hdrop hfit hd
+example : NameWF [[95, 109, 97, 116, 116, 101, 114, 99], [95, 117, 100, 112], LOCAL] := by decide
+
+/-- **name round trip with suffix compression** (what other responders send): labels, then a pointer to an
+earlier flat name -/
+theorem mdns_name_compressed_round_trip (d : List Nat) (p : P) (pre suf : List (List Nat)) (c lo : Nat) (B B' : List Nat)
+    (hpre : ∀ l ∈ pre, 1 ≤ l.length ∧ l.length ≤ 63) (hsuf : ∀ l ∈ suf, 1 ≤ l.length ∧ l.length ≤ 63) (hc : 192 ≤ c)
+    (hdrop : d.drop p.pos = encLabels pre ++ c :: lo :: B)
+    (hfit : p.pos + (encLabels pre).length + 2 ≤ p.len) (hd : p.len ≤ d.length)
+    (hback : lo + c % 64 * 256 < p.pos + (encLabels pre).length)
+    (hsufdrop : d.drop (lo + c % 64 * 256) = encName suf ++ B')
+    (hsuffit : lo + c % 64 * 256 + (encName suf).length ≤ p.len)
+    (hlen : (encLabels pre).length + (encName suf).length ≤ 255) :
+    parseName d p = .ok ({ labels := pre ++ suf, nameLen := (encLabels pre).length + (encName suf).length,
+                           compressed := decide ((encLabels pre).length ≠ 0) },
+                         ⟨p.pos + (encLabels pre).length + 2, p.len⟩) :=
+  parseName_compressed d p pre suf c lo B B' hpre hsuf hc hdrop hfit hd hback hsufdrop hsuffit hlen
+/-- the hypotheses are satisfiable: `local.` at 0, `_udp` + pointer to 0 at 7 -/
+example : parseName [5, 108, 111, 99, 97, 108, 0, 4, 95, 117, 100, 112, 0xC0, 0] ⟨7, 14⟩ =
+    .ok ({ labels := [[95, 117, 100, 112], [108, 111, 99, 97, 108]], nameLen := 12, compressed := true }, ⟨14, 14⟩) := by
+  rfl
+
+/-- **refusal clauses of the name parser**, each after an arbitrary run `pre` of well-formed labels:
+a length octet 0x40..0xBF (label longer than 63 octets); a name cut off at a label boundary or inside a
+label; a pointer that does not point strictly before itself (self reference, forward, past the end - the
+only way a pointer loop could start); a name longer than 255 octets -/
+theorem mdns_name_rejected (d : List Nat) (p : P) (pre : List (List Nat))
+    (hpre : ∀ l ∈ pre, 1 ≤ l.length ∧ l.length ≤ 63) (hd : p.len ≤ d.length) (hlen : (encLabels pre).length < 255) :
+    (∀ t B, 64 ≤ t → t < 192 → d.drop p.pos = encLabels pre ++ t :: B → p.pos + (encLabels pre).length + 1 ≤ p.len →
+      parseName d p = .error .badLabel) ∧
+    (∀ B, d.drop p.pos = encLabels pre ++ B → p.pos + (encLabels pre).length = p.len →
+      parseName d p = .error .shortInput) ∧
+    (∀ n B, 1 ≤ n → n ≤ 63 → d.drop p.pos = encLabels pre ++ n :: B → p.pos + (encLabels pre).length + 1 ≤ p.len →
+      p.len < p.pos + (encLabels pre).length + 1 + n → parseName d p = .error .shortInput) ∧
+    (∀ c lo B, 192 ≤ c → d.drop p.pos = encLabels pre ++ c :: lo :: B → p.pos + (encLabels pre).length + 2 ≤ p.len →
+      p.pos + (encLabels pre).length ≤ lo + c % 64 * 256 → parseName d p = .error .compression) ∧
+    (∀ l B, 1 ≤ l.length → l.length ≤ 63 → d.drop p.pos = encLabels pre ++ l.length :: (l ++ B) →
+      p.pos + (encLabels pre).length + 1 + l.length ≤ p.len → 255 ≤ (encLabels pre).length + l.length + 1 →
+      parseName d p = .error .longName) :=
+  ⟨fun t B h1 h2 hdrop hfit => parseName_rejects_bad_label d p pre t B hpre h1 h2 hdrop hfit hd hlen,
+   fun B hdrop hfit => parseName_rejects_truncated d p pre B hpre hdrop hfit hd hlen,
+   fun n B h1 h2 hdrop hfit hcut => parseName_rejects_truncated_label d p pre n B hpre h1 h2 hdrop hfit hcut hd hlen,
+   fun c lo B hc hdrop hfit hfwd => parseName_rejects_forward_pointer d p pre c lo B hpre hc hdrop hfit hd hlen hfwd,
+   fun l B h1 h2 hdrop hfit hlong => parseName_rejects_long d p pre l B hpre h1 h2 hdrop hfit hd hlen hlong⟩
+/-- samples of the refused inputs: a self-referencing pointer; two pointers pointing at each other; a pointer
+whose target runs into the same pointer again (refused when the name reaches 255 octets) -/
+example : parseName [0xC0, 0] ⟨0, 2⟩ = .error .compression ∧
+    parseName [0xC0, 2, 0xC0, 0] ⟨0, 4⟩ = .error .compression ∧ parseName [0xC0, 2, 0xC0, 0] ⟨2, 4⟩ = .error .compression ∧
+    parseName (62 :: List.replicate 62 97 ++ [0xC0, 0]) ⟨63, 65⟩ = .error .longName := ⟨rfl, rfl, rfl, rfl⟩
+
+/-- **everything the name parser accepts is a legal DNS name** - labels of 1..63 octets, reported length = length
+of the uncompressed name ≤ 255 octets - however many compression pointers were followed (no hypothesis) -/
+theorem mdns_name_accepts_only_legal (d : List Nat) (p : P) (n : Name) (p' : P) (h : parseName d p = .ok (n, p')) :
+    (∀ l ∈ n.labels, 1 ≤ l.length ∧ l.length ≤ 63) ∧ n.nameLen = (encName n.labels).length ∧ n.nameLen ≤ 255 :=
+  parseName_sound d p n p' h
+
+/-! ### resource records -/
+
+/-- **record framing round trip**: owner name, TYPE, CLASS, TTL, RDLENGTH, RDATA of any record type -/
+theorem mdns_record_round_trip (d : List Nat) (pos len : Nat) (r : RecSpec) (B : List Nat) (hwf : r.WF)
+    (h : d.drop pos = r.bytes ++ B) (hfit : pos + r.bytes.length ≤ len) (hd : len ≤ d.length) :
+    parseRecord d ⟨pos, len⟩ = .ok (r.parsed pos len, ⟨pos + r.bytes.length, len⟩) ∧
+    d.drop (pos + r.hdrLen) = r.rdata ++ B ∧ d.drop (pos + r.bytes.length) = B :=
+  parseRecord_at d pos len r B hwf h hfit hd
+example : RecSpec.WF { owner := [LOCAL], rtype := RT_A, cls := CLASS_IN_FLUSH, ttl := 120, rdata := [192, 168, 1, 5] } :=
+  ⟨by decide, by decide, by decide, by decide, by decide⟩
+
+/-- **typed record data round trip** of a record found at `pos` (`At`): SRV (priority, weight, port, target),
+PTR (target), A / AAAA (4 / 16 octets), and the raw data the TXT pass keeps -/
+theorem mdns_rdata_round_trip {d : List Nat} {len : Nat} {r : RecSpec} {pos : Nat} (h : At d len r pos) :
+    (∀ prio weight port target, r.rtype = RT_SRV →
+      r.rdata = u16be prio ++ (u16be weight ++ (u16be port ++ encName target)) →
+      prio < 65536 → weight < 65536 → port < 65536 → NameWF target →
+      toSrv d (r.parsed pos len) = .ok (some (port, flatName target))) ∧
+    (∀ target, r.rtype = RT_PTR → r.rdata = encName target → NameWF target →
+      toPtr d (r.parsed pos len) = .ok (some (flatName target))) ∧
+    (r.rtype = RT_A → r.rdata.length = 4 → toAddr RT_A 4 d (r.parsed pos len) = .ok (some r.rdata)) ∧
+    (r.rtype = RT_AAAA → r.rdata.length = 16 → toAddr RT_AAAA 16 d (r.parsed pos len) = .ok (some r.rdata)) ∧
+    toUnknown d (r.parsed pos len) = .ok (some r.rdata) :=
+  ⟨fun prio weight port target ht hdata h1 h2 h3 hwf => toSrv_at h prio weight port target ht hdata h1 h2 h3 hwf,
+   fun target ht hdata hwf => toPtr_at h target ht hdata hwf,
+   fun ht hn => toAddr_at RT_A 4 h ht hn, fun ht hn => toAddr_at RT_AAAA 16 h ht hn, toUnknown_at h⟩
+
+/-! ### TXT -/
+
+/-- **TXT round trip**: `Txt::compose_rdata` → `MdnsTxt`: the same pairs in the same order (split at the
+first `=`; an empty list travels as one empty string) -/
+theorem mdns_txt_round_trip (kvs : List (List Nat × List Nat)) (hwf : ∀ kv ∈ kvs, TxtWF kv) :
+    txtPairs (encTxt kvs) = .ok kvs :=
+  txtPairs_encTxt kvs hwf
+example : ∀ kv ∈ [([68], [49, 50, 51, 52]), ([86, 80], [54, 53, 43, 51, 61])], TxtWF kv := by
+  intro kv hkv
+  simp only [List.mem_cons, List.not_mem_nil, or_false] at hkv
+  rcases hkv with rfl | rfl <;> exact ⟨by decide, by decide, by decide⟩
+
+/-! ### the whole message -/
+
+def mdnsSampleHost : HostCfg :=
+  { hostname := [109, 121, 104, 111, 115, 116], ip := [192, 168, 1, 5], ipv6 := [List.replicate 16 0, [0xfe, 0x80, 0, 0, 0, 0, 0, 0, 0, 0, 0, 0, 0, 0, 0, 1]] }
+def mdnsSampleSvc : Svc :=
+  { name := [65, 66, 67, 68], service := [95, 109, 97, 116, 116, 101, 114, 99], protocol := [95, 117, 100, 112], port := 5540,
+    subtypes := [[95, 76, 49, 50, 51, 52], [95, 67, 77]], txt := [([68], [49, 50, 51, 52]), ([86, 80], [54, 53, 43, 51])] }
+
+/-- **message round trip**: header + A / AAAA / SRV / PTR… / TXT answers written by `Host::broadcast` for a
+legal description are parsed by `parse_into_answer` into exactly the instance name, the port, the TXT pairs
+in order and the addresses (IPv4 unless unspecified, then the specified IPv6 ones) that were encoded;
+and the encoder answers these octets whenever they fit the buffer, `BufferTooSmall` otherwise -/
+theorem mdns_message_round_trip (h : HostCfg) (s : Svc) (hostTtl svcTtl cap : Nat) (scope : Option Nat)
+    (hwf : BroadcastWF h s hostTtl svcTtl) :
+    parseIntoAnswer (broadcastBytes h s hostTtl svcTtl) scope = .ok (some {
+      inst := flatName (serviceFqdn s), port := some s.port, addrs := hostAddrs h, txt := s.txt, scope := scope.getD 0 }) ∧
+    ((broadcastBytes h s hostTtl svcTtl).length ≤ cap → broadcast h s hostTtl svcTtl cap = .ok (broadcastBytes h s hostTtl svcTtl)) ∧
+    (¬ (broadcastBytes h s hostTtl svcTtl).length ≤ cap → broadcast h s hostTtl svcTtl cap = .error .bufferTooSmall) := by
+  have hb := broadcast_spec h s hostTtl svcTtl cap hwf
+  refine ⟨parse_broadcast h s hostTtl svcTtl scope hwf, fun hc => ?_, fun hc => ?_⟩
+  · rw [if_pos hc] at hb; exact hb
+  · rw [if_neg hc] at hb; exact hb
+example : BroadcastWF mdnsSampleHost mdnsSampleSvc 120 4500 :=
+  ⟨by decide, by decide, by decide, by decide, by decide, by decide, by decide, by decide, by decide, by decide, by decide⟩
+
+/-- **browse response**: a message with only a PTR record `service type → instance` (no SRV) yields the PTR target
+as instance name, no port, no address, no TXT pair - the fallback branch of `parse_into_answer` -/
+theorem mdns_browse_response (stype inst : List (List Nat)) (ttl : Nat) (scope : Option Nat)
+    (h1 : NameWF stype) (h2 : NameWF inst) (h3 : ttl < 4294967296) :
+    parseIntoAnswer (responseBytes [browseRecord stype inst ttl]) scope =
+      .ok (some { inst := flatName inst, port := none, addrs := [], txt := [], scope := scope.getD 0 }) :=
+  parse_browse_response stype inst ttl scope h1 h2 h3
+example : NameWF (serviceTypeFqdn mdnsSampleSvc) ∧ NameWF (serviceFqdn mdnsSampleSvc) := by decide
+
+/-- a query written by `build_query` is not an answer, and its question section is walked to the end -/
+theorem mdns_query_ignored (name : List (List Nat)) (rtype : Nat) (scope : Option Nat) :
+    parseIntoAnswer (queryBytes name rtype) scope = .ok none ∧
+    (NameWF name → rtype < 65536 →
+      answerStart (queryBytes name rtype) = .ok ⟨(queryBytes name rtype).length, (queryBytes name rtype).length⟩) :=
+  ⟨parse_query name rtype scope, answerStart_query name rtype⟩
+
+/-! ### what a Matter node publishes (`MatterLocalService::service`, `transport/network/mdns.rs`) -/
+
+/-- the instance name, the service type and every subtype are legal DNS names, and every TXT pair fits a TXT
+string, has a key without `=` and is UTF-8 - for every value of the identifiers, discriminator, vendor / product
+id, session parameters, pairing hint, device type, TCP / ICD flags (device name and pairing instruction: UTF-8,
+≤ 249 octets) -/
+theorem mdns_matter_service_legal (l : LocalSvc) (dd : DevDet) (port : Nat) (icd : Option Bool) (hdd : dd.WF) :
+    NameWF (serviceFqdn (matterService l dd port icd).1) ∧
+    (∀ sub ∈ (matterService l dd port icd).1.subtypes, NameWF (subtypeFqdn (matterService l dd port icd).1 sub)) ∧
+    (∀ kv ∈ (matterService l dd port icd).1.txt, TxtOk kv) :=
+  ⟨(matterService_names l dd port icd).1, (matterService_names l dd port icd).2, matterService_txt l dd port icd hdd⟩
+def mdnsSampleDevDet : DevDet :=
+  { vid := 0xFFF1, pid := 0x8000, sai := some 300, sii := none, deviceName := [84, 101, 115, 116],
+    pairingInstruction := [], pairingHint := 33, deviceType := some 257, tcp := true }
+example : DevDet.WF mdnsSampleDevDet :=
+  ⟨by decide, by decide, by decide, by decide⟩
+
+/-- **end to end**: what a Matter node publishes, written by `Host::broadcast` and read by `parse_into_answer`,
+comes back with the published instance name, port, TXT pairs (`D`, `CM`, `VP`, …) in order and the host's addresses -/
+theorem mdns_matter_service_round_trip (h : HostCfg) (l : LocalSvc) (dd : DevDet) (port : Nat) (icd : Option Bool)
+    (hostTtl svcTtl : Nat) (scope : Option Nat) (hdd : dd.WF) (hhost : NameWF (hostFqdn h)) (hip : h.ip.length = 4)
+    (hip6 : ∀ a ∈ h.ipv6, a.length = 16) (hn6 : h.ipv6.length ≤ 1000) (hport : port < 65536)
+    (ht1 : hostTtl < 4294967296) (ht2 : svcTtl < 4294967296) :
+    parseIntoAnswer (broadcastBytes h (matterService l dd port icd).1 hostTtl svcTtl) scope = .ok (some {
+      inst := flatName (serviceFqdn (matterService l dd port icd).1), port := some port, addrs := hostAddrs h,
+      txt := (matterService l dd port icd).1.txt, scope := scope.getD 0 }) :=
+  matterService_round_trip h l dd port icd hostTtl svcTtl scope hdd hhost hip hip6 hn6 hport ht1 ht2
+example : NameWF (hostFqdn mdnsSampleHost) ∧ mdnsSampleHost.ip.length = 4 ∧ (∀ a ∈ mdnsSampleHost.ipv6, a.length = 16) ∧
+    mdnsSampleHost.ipv6.length ≤ 1000 := by decide
 
 end C17
